@@ -2,7 +2,7 @@
    SpecShift.v). *)
 From Coq Require Import List NArith ZArith.
 Import ListNotations.
-From PP Require Import Base Syntax Spec SpecSyn SpecShift.
+From PP Require Import Base Syntax Spec SpecSyn SpecShift SpecSyn SpecShift Interp Gen GenProof MachineCor.
 
 Theorem C16_shift : forall g f rule input k,
   all_grammar not_soi g = true -> k <= length input ->
@@ -27,5 +27,82 @@ Definition g_ab : grammar :=
 Example shift_instance : exists s, parse g_ab 20 5 [120; 97; 98]%N 1 = Ok s [Pair 5 1 3 [] None].
 Proof. eexists. vm_compute. reflexivity. Qed.
 
+
+(* ---- the same for the two machines as modelled (Interp.v: the interpreter; Gen.v: the generated
+   code; each tied exactly to its execution mode on every run), by the refinement theorems
+   (MachineCor.v). Side conditions as in C01: `one_modifier g` (a silent rule is not $ or !),
+   `inl_ok g inl` (built-in rules emitted in place are plain silent rules). *)
+Theorem C16_interpreter_shift : forall g, one_modifier g -> all_grammar not_soi g = true ->
+  forall f rule input k m s ps, k <= length input ->
+  iparse g f rule input k = IOk m s ps ->
+  exists f',
+    match iparse g f' rule (skipn k input) 0 with
+    | IOk m2 s2 ps2 =>
+        m2 = m /\
+        (if m then
+           ps = shift_pairs (N.of_nat k) ps2 /\
+           i_pos s = (i_pos s2 + N.of_nat k)%N /\ i_rest s = i_rest s2 /\
+           i_user s = i_user s2 /\ i_tags s = i_tags s2
+         else True) /\
+        pos_shifted (N.of_nat k) (t_pos (i_trk s2)) (t_pos (i_trk s)) /\
+        t_exp (i_trk s) = t_exp (i_trk s2) /\ t_unexp (i_trk s) = t_unexp (i_trk s2)
+    | _ => False
+    end.
+Proof. exact machine_C16_shift_interp. Qed.
+Theorem C16_interpreter_shift_any_fuel : forall g, one_modifier g -> all_grammar not_soi g = true ->
+  forall f1 f2 rule input k, k <= length input ->
+  match iparse g f1 rule input k, iparse g f2 rule (skipn k input) 0 with
+  | IOk true s ps, IOk true s2 ps2 =>
+      ps = shift_pairs (N.of_nat k) ps2 /\
+      i_pos s = (i_pos s2 + N.of_nat k)%N /\ i_rest s = i_rest s2 /\
+      i_user s = i_user s2 /\ i_tags s = i_tags s2 /\
+      pos_shifted (N.of_nat k) (t_pos (i_trk s2)) (t_pos (i_trk s)) /\
+      t_exp (i_trk s) = t_exp (i_trk s2) /\ t_unexp (i_trk s) = t_unexp (i_trk s2)
+  | IOk false s _, IOk false s2 _ =>
+      pos_shifted (N.of_nat k) (t_pos (i_trk s2)) (t_pos (i_trk s)) /\
+      t_exp (i_trk s) = t_exp (i_trk s2) /\ t_unexp (i_trk s) = t_unexp (i_trk s2)
+  | IUndef, IUndef => True
+  | IFuel, _ | _, IFuel => True
+  | _, _ => False
+  end.
+Proof. exact machine_C16_shift_any_interp. Qed.
+Theorem C16_generated_shift : forall g inl, one_modifier g -> inl_ok g inl ->
+  all_grammar not_soi g = true ->
+  forall f rule input k m s ps, inlined inl rule = false -> k <= length input ->
+  gparse g inl f rule input k = GOk m s ps ->
+  exists f',
+    match gparse g inl f' rule (skipn k input) 0 with
+    | GOk m2 s2 ps2 =>
+        m2 = m /\
+        (if m then
+           ps = shift_pairs (N.of_nat k) ps2 /\
+           i_pos s = (i_pos s2 + N.of_nat k)%N /\ i_rest s = i_rest s2 /\
+           i_user s = i_user s2 /\ i_tags s = i_tags s2
+         else True) /\
+        pos_shifted (N.of_nat k) (t_pos (i_trk s2)) (t_pos (i_trk s))
+    | _ => False
+    end.
+Proof. exact machine_C16_shift_gen. Qed.
+Theorem C16_generated_shift_any_fuel : forall g inl, one_modifier g -> inl_ok g inl ->
+  all_grammar not_soi g = true ->
+  forall f1 f2 rule input k, inlined inl rule = false -> k <= length input ->
+  match gparse g inl f1 rule input k, gparse g inl f2 rule (skipn k input) 0 with
+  | GOk true s ps, GOk true s2 ps2 =>
+      ps = shift_pairs (N.of_nat k) ps2 /\
+      i_pos s = (i_pos s2 + N.of_nat k)%N /\ i_rest s = i_rest s2 /\
+      i_user s = i_user s2 /\ i_tags s = i_tags s2 /\
+      pos_shifted (N.of_nat k) (t_pos (i_trk s2)) (t_pos (i_trk s))
+  | GOk false s _, GOk false s2 _ =>
+      pos_shifted (N.of_nat k) (t_pos (i_trk s2)) (t_pos (i_trk s))
+  | GUndef, GUndef => True
+  | GFuel, _ | _, GFuel => True
+  | _, _ => False
+  end.
+Proof. exact machine_C16_shift_any_gen. Qed.
+
 Print Assumptions C16_shift.
 Print Assumptions C16_prefix_irrelevant.
+Print Assumptions C16_interpreter_shift.
+Print Assumptions C16_interpreter_shift_any_fuel.
+Print Assumptions C16_generated_shift.
+Print Assumptions C16_generated_shift_any_fuel.
